@@ -3,7 +3,7 @@ from checks import krill_common as kc
 
 PID = "C01"
 LEVEL = "model_checking"
-THEMES = "chain,roll,life,agg,aspa,multi".split(",")
+THEMES = "chain,roll,life,agg,aspa,multi,mix".split(",")
 NEEDED = "Settled,RoaAdd,ChildRes".split(",")
 
 RULE = (
@@ -52,7 +52,7 @@ def run(tier, seed):
         quick_num=6 if len(THEMES) > 1 else 24, thorough_num=250,
         assumptions=kc.COMMON_ASSUMPTIONS, rule=RULE, needed_events=NEEDED,
         directed=DIRECTED + kc.MULTI_DIRECTED,
-        theme_nums={"multi": (4, 60)},
+        theme_nums={"multi": (4, 60), "mix": (4, 60)},
         mc_cfgs=(kc.QUICK_MC + ["MC_Krill_q_multi.cfg"] if tier == "quick"
                  else kc.QUICK_MC + kc.THOROUGH_MC + ["MC_Krill_q_multi.cfg"]))
 
